@@ -106,7 +106,8 @@ theorem C20_returns_every_period (f : Flags) (ds : List Directive) (lines : List
       rw [← hdates] at hsorted hreg
       obtain ⟨hinc, hin⟩ := endDates_increasing hnp
       have hspan := newPartition_span hnp
-      have hev := perfLines_every_period part.span part.endDates perfs (some 1) hsorted hinc hreg
+      have hev := perfLines_every_period (perfSpan part) part.endDates perfs (some 1) hsorted hinc hreg
+      rw [perfSpan_filter hnp] at hev
       refine ⟨part, days, rfl, hev, ?_⟩
       intro hle
       rw [hev, List.filter_eq_self]
@@ -200,11 +201,23 @@ def d (v0 v1 inflow : Rat) (date : Int) : DayPerf :=
 example : perfLines ⟨1, 2⟩ [1, 2] (some 1) [d 100 110 0 1, d 110 121 0 2] = [(1, some (1/10)), (2, some (1/10))] := by
   decide +kernel
 
-/-- … but with `--last 1` (only day 2 is a period end, the window still starts on day 1) the one reported period shows
-21 %, not end value / start value − 1 = 10 %: known finding `returns-last-folds-earlier-periods` -/
-theorem C20_last_folds_earlier_periods :
+/-- … and with `--last 1` (only day 2 is a period end, the span of the partition still starts on day 1) the one reported
+period shows its own 10 %: `Perf` skips the days before the first reported period (`perfSpan`, repair `32cd4f9`).  Before
+the repair it chained every day of the span and printed 21 % (former known finding `returns-last-folds-earlier-periods`,
+second conjunct: the old traversal over the whole span). -/
+theorem C20_last_reports_own_period :
+    perfSpan ⟨⟨1, 2⟩, .daily, [⟨2, 2⟩]⟩ = ⟨2, 2⟩ ∧
+    perfLines (perfSpan ⟨⟨1, 2⟩, .daily, [⟨2, 2⟩]⟩) [2] (some 1) [d 100 110 0 1, d 110 121 0 2] = [(2, some (1/10))] ∧
     perfLines ⟨1, 2⟩ [2] (some 1) [d 100 110 0 1, d 110 121 0 2] = [(2, some (21/100))] := by
-  decide +kernel
+  refine ⟨?_, ?_, ?_⟩ <;> decide +kernel
+
+/-- for every partition the command builds, a day before the first reported period start is outside `perfSpan` -/
+theorem C20_before_first_period_skipped (part : Partition) (s : Int) (rest : List Int) (hs : part.startDates = s :: rest)
+    (dt : Int) (h : dt < s) : (perfSpan part).contains dt = false := by
+  unfold perfSpan
+  rw [hs]
+  simp only [Period.contains]
+  split <;> simp <;> omega
 
 /-- a deposit of 50 that the commodity filter hides from the values but not from the flows: −1/3 instead of 0
 (known finding `returns-commodity-filter-counts-filtered-flows`) -/
